@@ -513,7 +513,7 @@ func (e *Engine) indexVal(st *State, b, i Val) (Val, error) {
 				et = sl.Elem()
 			}
 		}
-		return st.load("(elem "+b.Base+" "+sAdd(b.Off, i.T)+")", et, b.Root), nil
+		return st.load(elemAt(b.Base, b.Off, i.T), et, b.Root), nil
 	case KArr, KTuple:
 		if n, ok := litVal(i.T); ok && n >= 0 && int(n) < len(b.F) {
 			return b.F[n], nil
@@ -616,7 +616,7 @@ func (e *Engine) evalAddr(st *State, env *cenv, x *CExpr) (Val, error) {
 		}
 		if b.K == KSlice {
 			et := b.Ty.Underlying().(*types.Slice).Elem()
-			return Val{K: KAddr, T: "(elem " + b.Base + " " + sAdd(b.Off, i.T) + ")", Ty: types.NewPointer(et), Root: b.Root, NonNil: true}, nil
+			return Val{K: KAddr, T: elemAt(b.Base, b.Off, i.T), Ty: types.NewPointer(et), Root: b.Root, NonNil: true}, nil
 		}
 	case "id":
 		if env.fr != nil && env.fr.nameAddr[x.Name] {
@@ -1499,7 +1499,7 @@ func (e *Engine) checkAssignsRange(st *State, dst Val, pos token.Pos) {
 		return
 	}
 	q := st.declare("fa", "Int")
-	goal := sImp(sAnd(sLe("0", q), sLt(q, dst.Len)), e.allowedPred(ac, "Hi", "(elem "+dst.Base+" (+ "+dst.Off+" "+q+"))"))
+	goal := sImp(sAnd(sLe("0", q), sLt(q, dst.Len)), e.allowedPred(ac, "Hi", elemAt(dst.Base, dst.Off, q)))
 	st.addCheck(&Check{Name: fmt.Sprintf("%s.assigns@%s", e.curFunc, shortPos(posStr(e, pos))), Kind: "assigns", Goal: goal, Pos: posStr(e, pos), Func: e.curFunc})
 }
 
